@@ -95,3 +95,145 @@ fn main() {{}}
 
 UNITS = [VUnit("c11_execute", ["C11", "C17"], "start of a run: the entry module is cached under its import key first", build)]
 UNITS[0].assumes = ["file loading, the run of `__module__` and the report are abstract callees; the cache as a finite map (R10)", "that importers ask for `<path>#__module__` with the same spelling of the path is the compile side (units c11_path / c11_import_path)"]
+
+
+# =====================================================================================================================
+# C17 / C19: the end of a run -- what Program::execute does with a failure: the program's output is flushed first, then ONE report is written
+# that shows the error itself (its whole cause chain, `{e:?}`) under the full call-stack trace taken at the point of failure (Display for
+# Stack: obligation C17.trace.display), and execute fails.  Fragment: from `let main_ret = ..` to the end of the function.
+REPORT_SPEC = r"""
+use vstd::prelude::*;
+verus! {
+// an error: who it is (identity: the failure that happened) and the contexts added on its way up, innermost first
+pub struct VErr { pub id: Ghost<int>, pub ctx: Ghost<Seq<Seq<char>>> }
+pub fn verr_new() -> (r: VErr) ensures r.ctx@.len() == 0 { VErr { id: Ghost(arbitrary()), ctx: Ghost(Seq::empty()) } }
+#[verifier::external_body] pub struct VString { x: usize }
+pub uninterp spec fn text_of(s: &VString) -> Seq<char>;
+#[verifier::external_body] pub struct StackH { x: usize }
+pub uninterp spec fn trace_text(s: &StackH) -> Seq<char>;            // Display for Stack at the point of failure: every active frame, innermost first
+pub uninterp spec fn final_stack_size(s: &StackH) -> int;
+impl StackH {
+    #[verifier::external_body] pub fn to_string(&self) -> (r: VString) ensures text_of(&r) == trace_text(self) { unimplemented!() }
+    #[verifier::external_body] pub fn size(&self) -> (r: usize) ensures r == final_stack_size(self) { unimplemented!() }
+}
+// what the user sees of a failed run
+pub enum Event { FlushedStdout, FatalReport { id: int, ctx: Seq<Seq<char>> }, StackMismatchReport, OtherText(Seq<char>) }
+pub struct Out { pub ev: Ghost<Seq<Event>> }
+pub fn flush_stdout(out: &mut Out) -> (r: Result<(), VErr>) ensures r is Ok ==> final(out).ev@ == old(out).ev@.push(Event::FlushedStdout), r is Err ==> final(out).ev@ == old(out).ev@
+{ out.ev = Ghost(out.ev@.push(Event::FlushedStdout)); Ok(()) }
+// eprintln! of the banner with `{e:?}`: anyhow's Debug shows the outermost context, then the whole `Caused by:` chain down to the error itself
+pub fn report_error(out: &mut Out, e: &VErr) ensures final(out).ev@ == old(out).ev@.push(Event::FatalReport { id: e.id@, ctx: e.ctx@ }) { out.ev = Ghost(out.ev@.push(Event::FatalReport { id: e.id@, ctx: e.ctx@ })); }
+pub fn report_mismatch(out: &mut Out) ensures final(out).ev@ == old(out).ev@.push(Event::StackMismatchReport) { out.ev = Ghost(out.ev@.push(Event::StackMismatchReport)); }
+pub fn report_text(out: &mut Out, t: &VString) ensures final(out).ev@ == old(out).ev@.push(Event::OtherText(text_of(t))) { out.ev = Ghost(out.ev@.push(Event::OtherText(text_of(t)))); }
+// Result::with_context: an error keeps its identity and gains the context text
+pub trait WithCtx<T> { fn verif_with_context(self, c: VString) -> (r: Result<T, VErr>); }
+impl<T> WithCtx<T> for Result<T, VErr> {
+    #[verifier::external_body] fn verif_with_context(self, c: VString) -> (r: Result<T, VErr>)
+        ensures self is Ok ==> r == self, self is Err ==> r is Err && r->Err_0.id@ == self->Err_0.id@ && r->Err_0.ctx@ == self->Err_0.ctx@.push(text_of(&c)) { unimplemented!() }
+}
+// the run of the entry module's `__module__` (jump requests come back into process_jump_request: unit c11_module)
+pub uninterp spec fn run_error(s: &StackH) -> Option<int>;          // None: ran to its end
+#[verifier::external_body] pub fn run_entry_module(s: &StackH) -> (r: Result<(), VErr>)
+    ensures r is Ok <==> run_error(s) is None, r is Err ==> r->Err_0.id@ == run_error(s)->Some_0 && r->Err_0.ctx@ == Seq::<Seq<char>>::empty() { unimplemented!() }
+// ---- text building a change may put between the error and the report: every result is a text nothing is known about ----
+#[verifier::external_body] pub struct LinesV { x: usize }
+#[verifier::external_body] pub struct TextVec { x: usize }
+impl VString {
+    #[verifier::external_body] pub fn lines(&self) -> (r: LinesV) { unimplemented!() }
+    #[verifier::external_body] pub fn split(&self, sep: &str) -> (r: LinesV) { unimplemented!() }
+    #[verifier::external_body] pub fn push_str(&mut self, s: &VString) { unimplemented!() }
+    #[verifier::external_body] pub fn len(&self) -> (r: usize) { unimplemented!() }
+}
+impl LinesV {
+    #[verifier::external_body] pub fn count(self) -> (r: usize) { unimplemented!() }
+    #[verifier::external_body] pub fn take(self, n: usize) -> (r: LinesV) { unimplemented!() }
+    #[verifier::external_body] pub fn skip(self, n: usize) -> (r: LinesV) { unimplemented!() }
+    #[verifier::external_body] pub fn collect_vec(self) -> (r: TextVec) { unimplemented!() }
+}
+impl TextVec {
+    #[verifier::external_body] pub fn join(&self, sep: &str) -> (r: VString) { unimplemented!() }
+    #[verifier::external_body] pub fn len(&self) -> (r: usize) { unimplemented!() }
+}
+#[verifier::external_body] pub fn debug_text(e: &VErr) -> (r: VString) { unimplemented!() }          // format!("{e:?}") as a String: NOT the report itself
+#[verifier::external_body] pub fn some_text() -> (r: VString) { unimplemented!() }                  // any other format!(..)
+"""
+
+
+def build_report(repo):
+    import re as _re
+    src = Source(repo)
+    log = []
+    f = src.fn(FILE, "execute", "impl Program")
+    body = f["body"]
+    from vlib.pattern import Pat
+    p = Pat("let main_ret =")
+    at = None
+    for i in range(len(body)):
+        if p.match_at(body, i):
+            at = i; break
+    if at is None:
+        raise Undecided(f"{FILE}: `let main_ret = ..` not found in Program::execute")
+    frag = list(body[at:])
+    log.append(("R0", "Program::execute", "from `let main_ret = ..` to the end", "fragment: the start of the run is unit c11_execute"))
+
+    def eprint(b):
+        a = b["a"]
+        if not a or not a[0].startswith('"'):
+            return None
+        lit, rest = a[0], " ".join(a[1:])
+        caps = _re.findall(r"\{(\w*)(?::([^}]*))?\}", lit)
+        if "FATAL RUNTIME ERROR" in lit:
+            if len(caps) == 1 and caps[0][1] == "?" and caps[0][0]:
+                return f"report_error ( out , & {caps[0][0]} ) ;"
+            if len(caps) == 1 and caps[0][0] and caps[0][1] == "":
+                return f"report_text ( out , & {caps[0][0]} ) ;"
+            if len(caps) == 1 and not caps[0][0] and len(a) == 3 and a[1] == ",":
+                return (f"report_error ( out , & {a[2]} ) ;" if caps[0][1] == "?" else f"report_text ( out , & {a[2]} ) ;")
+            raise Undecided("Program::execute: the fatal report prints something the translation does not read")
+        if "STACK MISMATCH" in lit:
+            return "report_mismatch ( out ) ;"
+        raise Undecided("Program::execute: an eprintln! that is neither the fatal report nor the stack-mismatch report")
+
+    def fmt(b):
+        a = b["a"][1:-1]
+        m = _re.fullmatch(r'"\{(\w+):#?\?\}"', a[0]) if len(a) == 1 else None
+        if m:
+            return "debug_text ( & " + m.group(1) + " )"
+        return "some_text ( )"
+
+    b = translate(frag, [
+        Rule("R3", "bail ! $a", "return Err ( verr_new ( ) )", why="bail! -> a NEW error"),
+        Rule("R6", "entrypoint . run_function ( $$a )", "run_entry_module ( & stack )", why="the run of `__module__`: abstract callee"),
+        Rule("R3", ". with_context ( || $$e )", ". verif_with_context ( $$e )", why="Result::with_context: the error keeps its identity and gains the closure's text (evaluated eagerly here: it is pure)"),
+        Rule("R10", "stack . borrow ( )", "stack", why="RefCell borrow of the call stack dropped"),
+        Rule("R10", "& stack", "& stack", why=""),
+        Rule("R6", "stdout ( ) . lock ( ) . flush ( ) ? ;", "flush_stdout ( out ) ? ;", why="flush of the program's output (may fail)"),
+        Rule("R3", "eprintln ! ( $$a ) ;", eprint, why="the report: WHICH error / text it shows is kept, the banner text is dropped"),
+        Rule("R9", "format ! $a", fmt, why="format!: a text nothing is known about (except `{e:?}` of an error: its Debug text as a String)"),
+        Rule("R9", ". collect :: < Vec < _ >> ( )", ". collect_vec ( )", why="collect into a Vec of lines"),
+        Rule("R3", "log :: info ! $a ;", "", why="logging dropped"),
+    ], log, "Program::execute[report]")
+    check_closed(b, "Program::execute[report]")
+    gen = header(log, f"{FILE}: Program::execute, from `let main_ret = ..`") + REPORT_SPEC + f"""
+//@ OBL C17.execute.report
+pub fn execute_tail(stack: StackH, out: &mut Out) -> (r: Result<(), VErr>)
+    ensures
+        // the program failed: its output is flushed first, then exactly one report shows THAT error under the full call-stack trace; execute fails
+        run_error(&stack) is Some ==> r is Err && (final(out).ev@ == old(out).ev@                                     // (only when flushing stdout itself fails)
+            || final(out).ev@ == old(out).ev@.push(Event::FlushedStdout).push(Event::FatalReport {{ id: run_error(&stack)->Some_0, ctx: Seq::<Seq<char>>::empty().push(trace_text(&stack)) }})),
+        // the program ran to its end: success exactly when the call stack is empty again; no fatal report
+        run_error(&stack) is None ==> (r is Ok <==> final_stack_size(&stack) == 0) && (r is Ok ==> final(out).ev@ == old(out).ev@),
+{{
+{render(b, 1)}
+}}
+}} // verus!
+fn main() {{}}
+"""
+    return gen, [Obl("C17.execute.report", ["C17", "C19", "C01"], fn="Program::execute[report]",
+                     desc="Program::execute on a failed run: stdout flushed first, then one report showing the error itself (whole cause chain) under the complete call-stack trace of the point of failure; execute fails; a clean run reports nothing")], log
+
+
+UNITS.append(VUnit("c17_execute_report", ["C17", "C19", "C01"], "end of a run: flush, one complete report, failure", build_report))
+UNITS[-1].type_map = {"Stack": "StackH", "Ref < Stack >": "StackH"}
+UNITS[-1].assumes = ["anyhow: `{e:?}` prints the outermost context followed by the whole `Caused by:` chain; with_context keeps the error (assumed library contracts)",
+                     "Display for Stack is its own obligation (C17.trace.display); the run itself and stderr are abstract"]
